@@ -171,6 +171,12 @@ pub struct Config {
     /// Some(w): the generator first produces an unrelated, memo-rich pickle (seed w, 150..400
     /// opcodes) and only then the observed one - outputs must not depend on that history
     pub warmup: Option<u64>,
+    /// order / style in which the builder methods are called (0 canonical, 1 reversed with
+    /// single-item setters, 2 minimal: only non-default settings); the resulting configuration
+    /// is the same, so outputs must be too
+    pub order: u8,
+    /// Some(k): `with_buffer_size(k)` is called as well (documented as a PRNG buffer size)
+    pub bufsize: Option<usize>,
     pub unsafe_mut: bool,
     pub ext: bool,
     pub buf: bool,
@@ -187,6 +193,8 @@ impl Config {
             rate: 0.1,
             raw_rate: false,
             warmup: None,
+            order: 0,
+            bufsize: None,
             unsafe_mut: false,
             ext: false,
             buf: false,
@@ -198,26 +206,69 @@ impl Config {
     }
 
     pub fn build(&self) -> Generator {
-        let mut g = Generator::new(self.version()).with_opcode_range(self.min, self.max);
-        if let Entropy::Seed(s) = self.entropy {
-            g = g.with_seed(s);
-        }
-        if !self.mutators.is_empty() {
-            let ms = self
-                .mutators
-                .iter()
-                .map(|m| m.kind().create(self.unsafe_mut))
-                .collect();
-            g = g.with_mutators(ms);
-        }
-        g = g.with_mutation_rate(self.rate);
+        let mk = |m: &Mk| m.kind().create(self.unsafe_mut);
+        let mut g = match self.order {
+            1 => {
+                // flags first, single-item setters, range through the two separate methods
+                let mut g = Generator::new(self.version())
+                    .with_buffer_opcodes(self.buf)
+                    .with_ext_opcodes(self.ext)
+                    .with_unsafe_mutations(self.unsafe_mut)
+                    .with_mutation_rate(self.rate);
+                for m in &self.mutators {
+                    g = g.with_mutator(mk(m));
+                }
+                if let Entropy::Seed(s) = self.entropy {
+                    g = g.with_seed(s);
+                }
+                g.with_max_opcodes(self.max).with_min_opcodes(self.min)
+            }
+            2 => {
+                // only what differs from the defaults is set at all
+                let mut g = Generator::new(self.version());
+                if (self.min, self.max) != (60, 300) {
+                    g = g.with_opcode_range(self.min, self.max);
+                }
+                if !self.mutators.is_empty() {
+                    g = g.with_mutators(self.mutators.iter().map(mk).collect());
+                }
+                if self.rate != 0.1 {
+                    g = g.with_mutation_rate(self.rate);
+                }
+                if self.unsafe_mut {
+                    g = g.with_unsafe_mutations(true);
+                }
+                if self.ext {
+                    g = g.with_ext_opcodes(true);
+                }
+                if self.buf {
+                    g = g.with_buffer_opcodes(true);
+                }
+                if let Entropy::Seed(s) = self.entropy {
+                    g = g.with_seed(s);
+                }
+                g
+            }
+            _ => {
+                let mut g = Generator::new(self.version()).with_opcode_range(self.min, self.max);
+                if let Entropy::Seed(s) = self.entropy {
+                    g = g.with_seed(s);
+                }
+                if !self.mutators.is_empty() {
+                    g = g.with_mutators(self.mutators.iter().map(mk).collect());
+                }
+                g.with_mutation_rate(self.rate)
+                    .with_unsafe_mutations(self.unsafe_mut)
+                    .with_ext_opcodes(self.ext)
+                    .with_buffer_opcodes(self.buf)
+            }
+        };
         if self.raw_rate {
             g.mutation_rate = self.rate;
         }
-        g = g
-            .with_unsafe_mutations(self.unsafe_mut)
-            .with_ext_opcodes(self.ext)
-            .with_buffer_opcodes(self.buf);
+        if let Some(k) = self.bufsize {
+            g = g.with_buffer_size(k);
+        }
         g
     }
 
@@ -235,7 +286,7 @@ impl Config {
             },
             "min": self.min, "max": self.max,
             "mutators": self.mutators.iter().map(|m| m.name()).collect::<Vec<_>>(),
-            "rate": rate, "raw_rate": self.raw_rate, "warmup": self.warmup,
+            "rate": rate, "raw_rate": self.raw_rate, "warmup": self.warmup, "order": self.order, "bufsize": self.bufsize,
             "unsafe": self.unsafe_mut, "ext": self.ext, "buf": self.buf,
         })
     }
@@ -263,6 +314,8 @@ impl Config {
             rate,
             raw_rate: v["raw_rate"].as_bool().unwrap_or(false),
             warmup: v.get("warmup").and_then(|w| w.as_u64()),
+            order: v.get("order").and_then(|w| w.as_u64()).unwrap_or(0) as u8,
+            bufsize: v.get("bufsize").and_then(|w| w.as_u64()).map(|k| k as usize),
             unsafe_mut: v["unsafe"].as_bool().unwrap_or(false),
             ext: v["ext"].as_bool().unwrap_or(false),
             buf: v["buf"].as_bool().unwrap_or(false),
@@ -362,8 +415,10 @@ pub fn run_case(cfg: &Config, trace: Option<verif::Config>) -> CaseResult {
     if let Some(w) = cfg.warmup {
         // reused generator: an earlier, unrelated generation on the same instance
         let (m0, m1, s0) = (g.min_opcodes, g.max_opcodes, g.seed);
-        g.min_opcodes = 150;
-        g.max_opcodes = 400;
+        // one warm-up in 16 is a large pickle (buffers and tables grown well past their defaults)
+        let big = w % 16 == 0;
+        g.min_opcodes = if big { 2500 } else { 150 };
+        g.max_opcodes = if big { 3000 } else { 400 };
         g.seed = Some(w);
         let _ = gen_once(&mut g, &Entropy::Seed(w));
         g.min_opcodes = m0;
